@@ -151,6 +151,9 @@ async def run_case(case):
                             if raises:
                                 raise RuntimeError("teardown action failed")
                             stop.set()
+                            # a synchronous action may hand back anything (`Event.set` style functions return None,
+                            # others a count or a flag): only an awaitable is awaited
+                            return [None, True, 0, "stopping"][sid % 4]
                 if callable(ta) and sv.get("async_action") and sid % 2 == 0:
                     # an asynchronous teardown action need not be a coroutine function: a plain callable
                     # handing back a coroutine
